@@ -6,16 +6,47 @@ import Nebula.Lemmas.HostMapOps
 namespace Nebula.HostMap
 open FMap
 
+/-- the frame of an operation that prepares tunnel `h` (not live before) and then runs `unlockedAddHostInfo(h)` -/
+theorem opFrame_of_addHost {s0 s t : State} {h : Nat} (c0 : Core none s0) (c : Core none s) (hnl : ¬ Live s0 h)
+    (hi : s.indexes = s0.indexes) (hr : s.rindexes = s0.rindexes) (hrs : s.rs = s0.rs)
+    (ho : ∀ x, x ≠ h → s.obj x = s0.obj x)
+    (hp : ∀ i, s0.pidx.get i = some h → (s.obj h).lidx = i ∧ (s.obj h).ready = true)
+    (f : AddHostFrame s t h) : OpFrame s0 t [h] := by
+  have hto : ∀ x, t.obj x = s.obj x := fun x => by simp [State.obj, f.objs]
+  refine ⟨fun i x e => ?_, fun x hl => ?_, fun x i hk => ?_, fun i x e => ?_, fun r x e => ?_⟩
+  · rcases f.idxSub i x e with k | k
+    · exact Or.inl (hi ▸ k)
+    · exact Or.inr (by simp [k])
+  · have hxh : x ≠ h := by rintro rfl; exact hnl hl
+    rw [hto, ho x hxh]
+  · have e1 : s.rstate x = s0.rstate x := by simp [State.rstate, hrs]
+    rw [← e1] at hk
+    rw [(f.rs x (c.rok x)).2.2.1 i]; exact hk
+  · by_cases hxh : x = h
+    · subst hxh; rw [hto]; exact hp i e
+    · rw [hto, ho x hxh]
+      obtain ⟨p1, _, _, p4⟩ := c0.pidx i x e
+      exact ⟨p1, p4⟩
+  · rw [← hr] at e
+    rcases f.ridxKeep r x e with k | k | k
+    · exact Or.inl k
+    · right; left; intro hl; simp only [Live, hto] at hl; exact k hl
+    · right; right; exact ⟨h, k, by simp⟩
+
+theorem opFrame_refl {s : State} (c : Core none s) : OpFrame s s [] :=
+  opFrame_basic c rfl rfl (fun _ _ => rfl) (fun _ _ e => e)
+
 theorem pendingDelete_inv {s : State} (i : Inv s) (h : Nat) : Inv (pendingDelete s h) := by
   have d := pendingDelete_spec s h
   exact ⟨pendingDelete_core i.core h, fun a => by rw [hostList_congr d.hosts d.more]; exact i.cap a⟩
 
 /-! ### continueHandshake tail -/
 
-theorem opFin_inv {s : State} (i : Inv s) (idx : Nat) (ads : List Nat) (r t : Nat) : Inv (opFin s idx ads r t).1 := by
+theorem opFin_both {s : State} (i : Inv s) (idx : Nat) (ads : List Nat) (r t : Nat) :
+    Inv (opFin s idx ads r t).1 ∧ OpFrame s (opFin s idx ads r t).1 (s.pidx.get idx).toList := by
   unfold opFin
   cases hp : s.pidx.get idx with
-  | none => exact i
+  | none => exact ⟨i, (opFrame_refl i.core).mono (by simp)⟩
   | some h =>
     simp only
     obtain ⟨p1, p2, p3, p4⟩ := i.core.pidx idx h hp
@@ -42,7 +73,8 @@ theorem opFin_inv {s : State} (i : Inv s) (idx : Nat) (ads : List Nat) (r t : Na
           simp only [this, List.headD_cons] at hc
           simpa [o] using hc
       have c2 : Core none s2 := by
-        refine core_update i.core h o hnl (by simp) ?_ d.hosts d.more d.indexes d.rindexes d.relays ?_ ?_ ?_
+        refine core_update i.core h o hnl (by simp) ?_ d.hosts d.more d.indexes d.rindexes d.relays d.rs
+          (no_relay_idx_of_pidx i.core hp) ?_ ?_ ?_ (fun a ha => absurd ha (hvp a)) ?_
         · intro y; rw [d.objs]; simp [s1, State.setObj, get_set]
         · intro a x hx
           by_cases e : x = h
@@ -68,28 +100,69 @@ theorem opFin_inv {s : State} (i : Inv s) (idx : Nat) (ads : List Nat) (r t : Na
           rw [d.next] at hx
           have hx' : s.next ≤ x := hx
           exact ⟨hx', by omega⟩
+        · intro j x hxh hj
+          rw [d.pidx, if_neg]; exact hj
+          rintro ⟨_, h2⟩
+          have h2' : s.pidx.get j = some h := h2
+          rw [hj] at h2'; exact hxh (Option.some.inj h2')
       have ho2 : s2.obj h = o := by
         simp [State.obj, d.objs, s1, State.setObj, get_set]
       have cap2 : Cap s2 := fun a => by
         rw [hostList_congr d.hosts d.more]; simpa [s1, hostList, State.setObj] using i.cap a
-      refine (addHost_inv c2 cap2 ?_ ?_ ?_ hvp).1
-      · rw [ho2, d.indexes]; simpa [o, p1, s1, State.setObj] using p3
-      · rw [ho2]; simpa [o, p1] using p2
-      · have hpp : s1.pidx = s.pidx := rfl
-        rw [ho2, d.pidx, ho1, hpp]; simp [o, p1, hp]
+      have hnr2 : ∀ j, ((s2.rstate h).byIdx.get j).isSome = false := by
+        intro j
+        have : s2.rstate h = s.rstate h := by simp [State.rstate, d.rs, s1, State.setObj]
+        rw [this]; exact no_relay_idx_of_pidx i.core hp j
+      have key : Inv (addHost s2 h) ∧ AddHostFrame s2 (addHost s2 h) h := by
+        refine addHost_inv c2 cap2 ?_ ?_ ?_ hvp hnr2
+        · rw [ho2, d.indexes]; simpa [o, p1, s1, State.setObj] using p3
+        · rw [ho2]; simpa [o, p1] using p2
+        · have hpp : s1.pidx = s.pidx := rfl
+          rw [ho2, d.pidx, ho1, hpp]; simp [o, p1, hp]
+      refine ⟨key.1, ?_⟩
+      simp only [Option.toList_some]
+      refine opFrame_of_addHost i.core c2 hnl d.indexes d.rindexes d.rs ?_ ?_ key.2
+      · intro x hx
+        simp [State.obj, d.objs, s1, State.setObj, get_set, Ne.symm hx]
+      · intro j hj
+        rw [ho2]
+        exact ⟨by simp [o, (i.core.pidx j h hj).1], by simp [o, p4]⟩
     · simp only [hc, Bool.false_eq_true, ↓reduceIte]
-      exact startHandshake_inv (pendingDelete_inv i h) _
+      refine ⟨startHandshake_inv (pendingDelete_inv i h) _, ?_⟩
+      have d := pendingDelete_spec s h
+      refine (opFrame_basic i.core ?_ ?_ ?_ ?_).mono (by simp)
+      · unfold startHandshake; split <;> simp [d.indexes]
+      · unfold startHandshake; split <;> simp [d.rindexes]
+      · intro x hx
+        have hlt : x < s.next := by
+          apply lt_next_of_lidx i.core
+          rcases hx with hl | ⟨j, hj⟩
+          · have := i.core.idx _ x hl; exact this.1 ▸ this.2
+          · obtain ⟨q1, q2, _⟩ := i.core.pidx j x hj; rw [q1]; exact q2
+        unfold startHandshake; split
+        · simp [State.obj, d.objs]
+        · simp only [State.obj, d.objs, d.next, get_set]
+          have : s.next ≠ x := by omega
+          simp [this]
+      · intro x j hk
+        unfold startHandshake; split <;> simpa [State.rstate, d.rs] using hk
+
+theorem opFin_inv {s : State} (i : Inv s) (idx : Nat) (ads : List Nat) (r t : Nat) : Inv (opFin s idx ads r t).1 :=
+  (opFin_both i idx ads r t).1
 
 /-! ### beginHandshake tail -/
 
 theorem checkAndComplete_inv {s : State} (i : Inv s) (h : Nat) (hz : (s.obj h).lidx ≠ 0)
-    (hv : ∀ a, s.vpnIps.get a ≠ some h) (hpn : ∀ j, s.pidx.get j ≠ some h) : Inv (checkAndComplete s h).1 := by
+    (hv : ∀ a, s.vpnIps.get a ≠ some h) (hpn : ∀ j, s.pidx.get j ≠ some h)
+    (hnr : ∀ i, ((s.rstate h).byIdx.get i).isSome = false) :
+    Inv (checkAndComplete s h).1 ∧
+      ((checkAndComplete s h).1 = s ∨ AddHostFrame s (checkAndComplete s h).1 h) := by
   unfold checkAndComplete
   simp only
   split
-  · exact i
+  · exact ⟨i, Or.inl rfl⟩
   · cases hi : s.indexes.get (s.obj h).lidx with
-    | some x => exact i
+    | some x => exact ⟨i, Or.inl rfl⟩
     | none =>
       simp only
       cases hp : s.pidx.get (s.obj h).lidx with
@@ -98,13 +171,16 @@ theorem checkAndComplete_inv {s : State} (i : Inv s) (h : Nat) (hz : (s.obj h).l
         by_cases e : p = h
         · subst e; exact absurd hp (hpn _)
         · simp [e]; exact i
-      | none => exact (addHost_inv i.core i.cap hi hz hp hv).1
+      | none =>
+        have key := addHost_inv i.core i.cap hi hz hp hv hnr
+        exact ⟨key.1, Or.inr key.2⟩
 
-theorem opResp_inv {s : State} (i : Inv s) (ads : List Nat) (r p t : Nat) (st : List Nat) :
-    Inv (match opResp s ads r p t st with | some (s', _) => s' | none => s) := by
+theorem opResp_both {s : State} (i : Inv s) (ads : List Nat) (r p t : Nat) (st : List Nat) :
+    Inv (match opResp s ads r p t st with | some (s', _) => s' | none => s) ∧
+    OpFrame s (match opResp s ads r p t st with | some (s', _) => s' | none => s) [s.next] := by
   unfold opResp
   cases hg : genIndex st with
-  | none => exact i
+  | none => exact ⟨i, (opFrame_refl i.core).mono (by simp)⟩
   | some q =>
     obtain ⟨idx, st'⟩ := q
     simp only
@@ -112,7 +188,8 @@ theorem opResp_inv {s : State} (i : Inv s) (ads : List Nat) (r p t : Nat) (st : 
     let o : Obj := { addrs := ads, lidx := idx, ridx := r, pkt := p, hsTime := t }
     let s1 : State := { s with objs := s.objs.set s.next o, next := s.next + 1 }
     have c1 : Core none s1 := by
-      refine core_update i.core s.next o u3 (by simp) (fun y => by simp [s1, get_set]) rfl rfl rfl rfl rfl ?_ ?_ ?_
+      refine core_update i.core s.next o u3 (by simp) (fun y => by simp [s1, get_set]) rfl rfl rfl rfl rfl rfl
+        (no_relay_idx_of_fresh i.core (Nat.le_refl _)) ?_ ?_ ?_ (by intro _ _ hr; simp [o] at hr) (fun _ _ _ e => e)
       · intro a x hx
         have hx' : s.vpnIps.get a = some x := hx
         have : x ≠ s.next := fun e => u1 a (e ▸ hx')
@@ -126,75 +203,159 @@ theorem opResp_inv {s : State} (i : Inv s) (ads : List Nat) (r p t : Nat) (st : 
         exact ⟨by omega, by omega⟩
     have i1 : Inv s1 := ⟨c1, fun a => by simpa [s1, hostList] using i.cap a⟩
     have ho : s1.obj s.next = o := by simp [s1, State.obj, get_set]
-    exact checkAndComplete_inv i1 s.next (by rw [ho]; exact genIndex_nonzero hg) u1 u2
+    obtain ⟨iv, fr⟩ := checkAndComplete_inv i1 s.next (by rw [ho]; exact genIndex_nonzero hg) u1 u2
+      (no_relay_idx_of_fresh i.core (Nat.le_refl _))
+    refine ⟨iv, ?_⟩
+    have hox : ∀ x, x ≠ s.next → s1.obj x = s.obj x := fun x hx => by
+      simp [s1, State.obj, get_set, Ne.symm hx]
+    rcases fr with e | fr
+    · rw [e]
+      refine (opFrame_basic (post := s1) i.core rfl rfl ?_ (fun _ _ e => e)).mono (by simp)
+      intro x hx
+      apply hox
+      have hlt : x < s.next := by
+        apply lt_next_of_lidx i.core
+        rcases hx with hl | ⟨j, hj⟩
+        · have := i.core.idx _ x hl; exact this.1 ▸ this.2
+        · obtain ⟨q1, q2, _⟩ := i.core.pidx j x hj; rw [q1]; exact q2
+      omega
+    · exact opFrame_of_addHost i.core c1 u3 rfl rfl rfl hox (fun j hj => absurd hj (u2 j)) fr
+
+theorem opResp_inv {s : State} (i : Inv s) (ads : List Nat) (r p t : Nat) (st : List Nat) :
+    Inv (match opResp s ads r p t st with | some (s', _) => s' | none => s) :=
+  (opResp_both i ads r p t st).1
 
 /-! ### AddRelay -/
 
-theorem relay_update {s : State} (i : Inv s) {h idx : Nat} (hl : Live s h) (hz : idx ≠ 0) (rl : List Nat)
-    (hsub : ∀ x ∈ (s.obj h).relays, x ∈ rl) (hin : idx ∈ rl) :
-    Inv { s.setObj h { s.obj h with relays := rl } with relays := s.relays.set idx h } := by
-  let t : State := { s.setObj h { s.obj h with relays := rl } with relays := s.relays.set idx h }
-  have hoh : t.obj h = { s.obj h with relays := rl } := by simp [t, State.obj, State.setObj, get_set]
-  have hox : ∀ x, x ≠ h → t.obj x = s.obj x := fun x hx => by
-    simp [t, State.obj, State.setObj, get_set, Ne.symm hx]
-  have addrs : ∀ x, (t.obj x).addrs = (s.obj x).addrs := fun x => by
-    by_cases e : x = h
-    · subst e; rw [hoh]
-    · rw [hox x e]
-  have lidx : ∀ x, (t.obj x).lidx = (s.obj x).lidx := fun x => by
-    by_cases e : x = h
-    · subst e; rw [hoh]
-    · rw [hox x e]
-  have ridx : ∀ x, (t.obj x).ridx = (s.obj x).ridx := fun x => by
-    by_cases e : x = h
-    · subst e; rw [hoh]
-    · rw [hox x e]
-  have ready : ∀ x, (t.obj x).ready = (s.obj x).ready := fun x => by
-    by_cases e : x = h
-    · subst e; rw [hoh]
-    · rw [hox x e]
-  have lv : ∀ x, Live t x ↔ Live s x := fun x => by
-    simp only [Live, lidx]; rfl
-  have hlist : ∀ a, hostList t a = hostList s a := fun a => by simp [t, hostList, State.setObj]
+/-- changing only the relay state of one tunnel, keeping the key sets of both maps and their agreement -/
+theorem inv_setRs {s : State} (i : Inv s) (h : Nat) (r : RelayState) (hok : ROk r)
+    (hk : ∀ j, (r.byIdx.get j).isSome = ((s.rstate h).byIdx.get j).isSome) : Inv (s.setRs h r) := by
   have c := i.core
+  have rst : ∀ x, x ≠ h → (s.setRs h r).rstate x = s.rstate x := fun x hx => by
+    rw [rstate_setRs]; simp [Ne.symm hx]
+  have rsh : (s.setRs h r).rstate h = r := by rw [rstate_setRs]; simp
+  have keys : ∀ x j, (((s.setRs h r).rstate x).byIdx.get j).isSome = ((s.rstate x).byIdx.get j).isSome := by
+    intro x j
+    by_cases e : x = h
+    · subst e; rw [rsh]; exact hk j
+    · rw [rst x e]
+  refine ⟨⟨c.rep, c.listOk, c.nodup, c.idx, c.reach, c.ridx, ?_, ?_, ?_, ?_, c.pidx, c.vpn, c.fresh, c.vpnReady⟩, i.cap⟩
+  · intro j x hx
+    obtain ⟨p1, p2, p3⟩ := c.rel j x hx
+    exact ⟨p1, by rw [keys]; exact p2, p3⟩
+  · intro x j hl hkk; rw [keys] at hkk; exact c.relOwn x j hl hkk
+  · intro x
+    by_cases e : x = h
+    · subst e; rw [rsh]; exact hok
+    · rw [rst x e]; exact c.rok x
+  · intro x j hkk; rw [keys] at hkk; exact c.rsPend x j hkk
+
+theorem relayTo_inv {s : State} (i : Inv s) (h a : Nat) : Inv (s.setRs h (insertRelayTo (s.rstate h) a)) := by
+  apply inv_setRs i h
+  · have := i.core.rok h
+    unfold insertRelayTo; split
+    · exact this
+    · exact this
+  · intro j; unfold insertRelayTo; split <;> rfl
+
+theorem relay_update {s : State} (i : Inv s) {h idx : Nat} (hl : Live s h) (hz : idx ≠ 0)
+    (hfree : s.relays.get idx = none) (rel : Relay) (hri : rel.lidx = idx) :
+    Inv { s.setRs h (insertRelay (s.rstate h) rel.peer idx rel) with relays := s.relays.set idx h } := by
+  let t : State := { s.setRs h (insertRelay (s.rstate h) rel.peer idx rel) with relays := s.relays.set idx h }
+  have c := i.core
+  have rst : ∀ x, x ≠ h → t.rstate x = s.rstate x := fun x hx => by
+    show (s.setRs h _).rstate x = _
+    rw [rstate_setRs]; simp [Ne.symm hx]
+  have rsh : t.rstate h = insertRelay (s.rstate h) rel.peer idx rel := by
+    show (s.setRs h _).rstate h = _
+    rw [rstate_setRs]; simp
+  have obj : ∀ x, t.obj x = s.obj x := fun x => rfl
+  have lv : ∀ x, Live t x ↔ Live s x := fun x => Iff.rfl
+  have hlist : ∀ a, hostList t a = hostList s a := fun a => rfl
+  have noidx : (s.rstate h).byIdx.get idx = none := by
+    cases hg : (s.rstate h).byIdx.get idx with
+    | none => rfl
+    | some r0 =>
+      have := c.relOwn h idx hl (by simp [hg])
+      rw [hfree] at this; cases this
+  have keyh : ∀ j, ((t.rstate h).byIdx.get j).isSome = (decide (idx = j) || ((s.rstate h).byIdx.get j).isSome) := by
+    intro j; rw [rsh]; simp only [insertRelay, get_set]
+    by_cases e : idx = j <;> simp [e]
   show Inv t
-  refine ⟨⟨c.rep, ?_, ?_, ?_, ?_, ?_, ?_, ?_, ?_, ?_⟩, fun a => by rw [hlist]; exact i.cap a⟩
-  · intro a x hx; rw [hlist] at hx; rw [lv, addrs]; exact c.listOk a x hx
-  · intro a; rw [hlist]; exact c.nodup a
-  · intro j x hx; rw [lidx]; exact c.idx j x hx
-  · intro j x hx a ha; rw [addrs] at ha; rw [hlist]; exact c.reach j x hx a ha
-  · intro j x hx; rw [lv, ridx]; exact c.ridx j x hx
+  refine ⟨⟨c.rep, c.listOk, c.nodup, c.idx, c.reach, c.ridx, ?_, ?_, ?_, ?_, c.pidx, c.vpn, c.fresh, c.vpnReady⟩, i.cap⟩
   · intro j x hx
     have hx' : (s.relays.set idx h).get j = some x := hx
     rw [get_set] at hx'
     by_cases e : idx = j
     · simp only [e, ↓reduceIte, Option.some.injEq] at hx'
       subst hx'; subst e
-      rw [lv, hoh]; exact ⟨hl, hin, hz⟩
+      exact ⟨hl, by rw [keyh]; simp, hz⟩
     · simp only [e, ↓reduceIte] at hx'
       obtain ⟨q1, q2, q3⟩ := c.rel j x hx'
-      rw [lv]
       refine ⟨q1, ?_, q3⟩
       by_cases e' : x = h
-      · subst e'; rw [hoh]; exact hsub j q2
-      · rw [hox x e']; exact q2
-  · intro j x hx; rw [lidx, ready]; exact c.pidx j x hx
-  · intro a x hx; rw [lv, addrs]; exact c.vpn a x hx
-  · intro x hx
-    have hx' : s.next ≤ x := hx
-    show (s.objs.set h _).get x = none
+      · subst e'; rw [keyh]; simp [q2]
+      · rw [rst x e']; exact q2
+  · intro x j hlx hk
+    show (s.relays.set idx h).get j = some x
     rw [get_set]
-    have : h ≠ x := by
-      rintro rfl
-      have := obj_fresh c hx'
-      simp only [Live, this] at hl
-      exact (c.idx _ _ hl).2 rfl
-    simp [this, c.fresh x hx']
+    by_cases e' : x = h
+    · subst e'
+      rw [keyh] at hk
+      by_cases e : idx = j
+      · simp [e]
+      · simp only [e, decide_false, Bool.false_or] at hk
+        simp [e, c.relOwn x j hlx hk]
+    · rw [rst x e'] at hk
+      have := c.relOwn x j hlx hk
+      have e : idx ≠ j := by rintro rfl; rw [hfree] at this; cases this
+      simp [e, this]
+  · intro x
+    by_cases e' : x = h
+    · subst e'
+      rw [rsh]
+      obtain ⟨hA, hI⟩ := c.rok x
+      constructor
+      · intro a r2 h2
+        simp only [insertRelay, get_set] at h2 ⊢
+        by_cases e : rel.peer = a
+        · simp only [e, ↓reduceIte, Option.some.injEq] at h2
+          subst h2; simp [e, hri]
+        · simp only [e, ↓reduceIte] at h2
+          obtain ⟨q1, q2⟩ := hA a r2 h2
+          refine ⟨q1, ?_⟩
+          have : idx ≠ r2.lidx := by
+            intro e2; rw [← e2, noidx] at q2; cases q2
+          simp [this, q2]
+      · intro j r2 h2
+        simp only [insertRelay, get_set] at h2 ⊢
+        by_cases e : idx = j
+        · simp only [e, ↓reduceIte, Option.some.injEq] at h2
+          subst h2; simp [← e, hri]
+        · simp only [e, ↓reduceIte] at h2
+          obtain ⟨q1, q2⟩ := hI j r2 h2
+          refine ⟨q1, ?_⟩
+          by_cases e2 : rel.peer = r2.peer
+          · simp [e2]
+          · simp [e2, q2]
+    · rw [rst x e']; exact c.rok x
+  · intro x j hk
+    by_cases e' : x = h
+    · subst e'
+      have hz' : (s.obj x).lidx ≠ 0 := by
+        have := c.idx _ x hl; exact this.1 ▸ this.2
+      refine ⟨lt_next_of_lidx c hz', ?_, ?_, by simp⟩
+      · intro k hk'
+        obtain ⟨p1, _, p3, _⟩ := c.pidx k x hk'
+        have : s.indexes.get (s.obj x).lidx = some x := hl
+        rw [p1, p3] at this; cases this
+      · intro a ha; exact (c.vpn a x ha).2.1 hl
+    · rw [rst x e'] at hk; exact c.rsPend x j hk
 
-theorem relayLoop_inv (h : Nat) (fuel : Nat) : ∀ (s : State) (st : List Nat), Inv s →
-    Inv (relayLoop h fuel s st).1 ∧
-    (∀ idx, (relayLoop h fuel s st).2 = .ok idx → idx ≠ 0 ∧ s.relays.get idx = none ∧ Live s h ∧
-      (relayLoop h fuel s st).1.relays.get idx = some h) := by
+theorem relayLoop_inv (h : Nat) (rel : Relay) (fuel : Nat) : ∀ (s : State) (st : List Nat), Inv s →
+    Inv (relayLoop h rel fuel s st).1 ∧
+    (∀ idx, (relayLoop h rel fuel s st).2 = .ok idx → idx ≠ 0 ∧ s.relays.get idx = none ∧ Live s h ∧
+      (relayLoop h rel fuel s st).1.relays.get idx = some h) := by
   induction fuel with
   | zero => intro s st i; simp [relayLoop, i]
   | succ n ih =>
@@ -218,19 +379,13 @@ theorem relayLoop_inv (h : Nat) (fuel : Nat) : ∀ (s : State) (st : List Nat), 
           have hl : Live s h := hok.mp rfl
           have hl1 : Live s1 h := by simpa [Live, same.obj, same.indexes] using hl
           have hz := genIndex_nonzero hg
-          refine ⟨?_, ?_⟩
-          · apply relay_update i1 hl1 hz
-            · intro x hx; split
-              · exact hx
-              · exact List.mem_append_left _ hx
-            · split
-              · assumption
-              · simp
-          · intro idx' e
-            simp only [Prod.mk.injEq, AllocRes.ok.injEq] at e
-            subst e
-            refine ⟨hz, by simpa using c, hl, ?_⟩
-            simp [get_set]
+          have hfree : s1.relays.get idx = none := by rw [same.relays]; simpa using c
+          refine ⟨relay_update i1 hl1 hz hfree { rel with lidx := idx } rfl, ?_⟩
+          intro idx' e
+          simp only [Prod.mk.injEq, AllocRes.ok.injEq] at e
+          subst e
+          refine ⟨hz, by simpa using c, hl, ?_⟩
+          simp [get_set]
       · simp only [c, Bool.false_eq_true, ↓reduceIte]
         exact ih s st' i
 
@@ -245,7 +400,8 @@ theorem applyOp_inv {s : State} (i : Inv s) (op : Op) : Inv (applyOp s op) := by
   | del h => exact deleteHost_inv i h
   | pdel h => exact pendingDelete_inv i h
   | prim h => exact (makePrimary_inv i h).1
-  | relay h st => exact (relayLoop_inv h 32 s st i).1
+  | relay h rel st => exact (relayLoop_inv h rel 32 s st i).1
+  | relayTo h a => exact relayTo_inv i h a
 
 theorem run_inv (ops : List Op) : ∀ s, Inv s → Inv (run s ops) := by
   induction ops with
